@@ -54,6 +54,11 @@ MUTATIONS = [
     ("named-ranges-filter-substring", TA, "            if nr.table_name in filter_  # type:ignore", "            if any(nr.table_name in f for f in filter_)  # type:ignore"),
     ("rename-moves-case-variants", TA, "        for named_range in self.get_named_ranges(table_name=self.name):\n            named_range.set_table_name(name)",
      "        for named_range in self.get_named_ranges():\n            if named_range.table_name.lower() == self.name.lower():\n                named_range.set_table_name(name)"),
+    # stale size after a whole-table transformation: negative coordinates then count from a wrong end (seeded C19-7)
+    ("rstrip-keeps-stale-height", TA, "        self._indexes[\"_cmap\"] = {}\n        self._compute_table_cache()\n\n    def optimize_width(self) -> None:",
+     "        self._indexes[\"_cmap\"] = {}\n\n    def optimize_width(self) -> None:"),
+    ("optimize-width-keeps-stale-height", TA, "        self._indexes[\"_cmap\"] = {}\n        self._compute_table_cache()\n\n    def transpose(",
+     "        self._indexes[\"_cmap\"] = {}\n        if diff > 0:\n            self._compute_table_cache()\n\n    def transpose("),
     ("get-columns-f24-again", TA, "            x, _y, z, _t = self._translate_column_coordinates(coord)", "            x, _y, _z, z = self._translate_column_coordinates(coord)"),
 ]
 REWRITES = [
